@@ -21,7 +21,7 @@ META = {
         "(per-permutation), or an argument at an end position / an empty component. Distinct = case content."
     ),
     "assumptions": [
-        "is_strongly_simple is not asserted: its docstring ('any') and code ('all') disagree and no independent definition is available offline",
+        "is_strongly_simple is asserted (light sweep) as 'simple, and every one-point deletion is simple' - the code's reading and the usual definition of strong simplicity; the docstring's 'any of' is read as 'every'",
     ],
 }
 
